@@ -29,8 +29,12 @@ int main(int argc, char **argv)
 	printf("open ret=%ld\n", (long)ret);
 	if (ret)
 		return 0;
-	if (!strcmp(what, "super") || !strcmp(what, "gd")) {
+	if (!strcmp(what, "super")) {
 		/* verified by ext2fs_open */
+	} else if (!strcmp(what, "gd")) {
+		/* ext2fs_open does not verify descriptors; the library's API for that is ext2fs_group_desc_csum_verify() */
+		ret = ext2fs_group_desc_csum_verify(fs, atoi(argv[3])) ? 0 : EXT2_ET_BAD_CRC;
+		printf("group_desc_csum_verify ret=%ld\n", (long)ret);
 	} else if (!strcmp(what, "bbitmap") || !strcmp(what, "ibitmap")) {
 		ret = ext2fs_read_bitmaps(fs);
 		printf("read_bitmaps ret=%ld\n", (long)ret);
